@@ -72,6 +72,7 @@ var (
 	known     map[string]bool
 	knownOnce sync.Once
 	sampleN   int
+	testName  string
 )
 
 // Root is the /verif directory.
@@ -167,7 +168,7 @@ func writeReplay(prop, hash string, c any, out *Outcome) string {
 	}
 	os.MkdirAll(dir, 0o755)
 	p := filepath.Join(dir, fmt.Sprintf("%s-%s.json", prop, hash))
-	b, _ := json.MarshalIndent(map[string]any{"property": prop, "case": c, "violations": out.Violations}, "", " ")
+	b, _ := json.MarshalIndent(map[string]any{"property": prop, "part": testName, "case": c, "violations": out.Violations}, "", " ")
 	os.WriteFile(p, b, 0o644)
 	if out.Artifacts != "" {
 		os.WriteFile(p+".diag.txt", []byte(out.Artifacts), 0o644)
@@ -214,6 +215,7 @@ type Property[C any] struct {
 // Run executes the property: replay mode if VERIF_REPLAY is set, otherwise fixed cases
 // (shard-partitioned) followed by rapid's random search.
 func Run[C any](t *testing.T, p Property[C]) {
+	testName = t.Name()
 	if rp := os.Getenv("VERIF_REPLAY"); rp != "" {
 		b, err := os.ReadFile(rp)
 		if err != nil {
